@@ -4,16 +4,25 @@
 
 #include "awkward/kernels.h"
 
+#include <cmath>
+
+// NaN sorts first in both directions, as in awkward_sort and awkward_argsort
 template <typename T>
-bool order_ascending(T left, T right)
+bool quick_sort_order_ascending(T left, T right)
 {
-  return left <= right;
+  if (std::isnan(static_cast<double>(left))) {
+    return true;
+  }
+  return !std::isnan(static_cast<double>(right))  &&  left <= right;
 }
 
 template <typename T>
-bool order_descending(T left, T right)
+bool quick_sort_order_descending(T left, T right)
 {
-  return left >= right;
+  if (std::isnan(static_cast<double>(left))) {
+    return true;
+  }
+  return !std::isnan(static_cast<double>(right))  &&  left >= right;
 }
 
 template <typename T>
@@ -101,7 +110,7 @@ ERROR awkward_quick_sort(
                      tmpbeg,
                      tmpend,
                      maxlevels,
-                     order_ascending<T>) < 0) {
+                     quick_sort_order_ascending<T>) < 0) {
         return failure("failed to sort an array", i, fromstarts[i], FILENAME(__LINE__));
       }
     }
@@ -113,7 +122,7 @@ ERROR awkward_quick_sort(
                      tmpbeg,
                      tmpend,
                      maxlevels,
-                     order_descending<T>) < 0) {
+                     quick_sort_order_descending<T>) < 0) {
         return failure("failed to sort an array", i, fromstarts[i], FILENAME(__LINE__));
       }
     }
